@@ -33,7 +33,8 @@ impl IntegerColumn {
         let interval = if min < 0 && max > 0 {
             max as u64 + (-(min as i128)) as u64
         } else {
-            (max - min) as u64
+            // max <= 0 or min >= 0: the difference fits u64 but not always i64 (min = i64::MIN, max = 0)
+            max.wrapping_sub(min) as u64
         };
         let mut column = if min >= 0 && max <= u8::MAX as i64 {
             IntegerColumn::create_col::<u8>(name, values, 0, min0, max0, delta_encode, null, EncodingType::U8)
